@@ -33,6 +33,20 @@ directory under /dev/shm and three independent things are decided, each clause w
              passed every clause; also run on every user attribute of the attribute clause
   dim        load(path, dim=k) of the independent writer's file for k in {None,0,1,2,3}: the override only RAISES the
              dimensionality (class = max(k, what the content implies)) and never changes an element -> mesh.load
+  carried    meshes that carry the WELL-KNOWN attributes the io modules look for (vertices 'normals' and 'uv_coords',
+             face_corners 'uv_coords', faces 'normals'; singly and in pairs, sparse / dense storage, with / without unset
+             elements) x 7 formats x {defaults, edge completion off, obj edge export off, ignore faces, ignore edges}:
+             coordinates, elements and class exactly as for the same mesh without the attribute (only a failure that NEEDS
+             the attribute is reported here), and where the format carries the attribute (xyz normal columns, obj vn / vt
+             records through the corner references, geogram [ATTR] chunks) the independent reader finds its values in the
+             file (file_values -> mesh.save) and they come back on load, prepared and raw (loaded_values -> mesh.load);
+             second generation of the same mesh (regen_*); and the independent writer's xyz / obj / ASCII-STL files with
+             NON-TRIVIAL normals / texture coordinates referred to through reversed indices (read_values, read_<clause>)
+  defaults   the documented signatures of save / load are pinned in a table (DOCUMENTED): every optional argument OMITTED
+             (one at a time, all together) must mean the documented default passed explicitly, options passed positionally
+             in the documented order must mean the same as by keyword (and filename= / mesh= by keyword), on files of the
+             independent writer / on the bytes written; the process-global export switches left UNTOUCHED must mean their
+             documented defaults (DOCUMENTED_CONFIG); inspect.signature() is compared with the table (defaults.signature)
 
 Binary STL is only ever loaded in a sacrificial forked child; a dead child is a `crash` fingerprint.
 """
@@ -56,7 +70,14 @@ RULE = ("every mesh of the finite families (all-triples point cloud over an 11-v
         "off}, one case = one (mesh, format, switches) whose first generation passed every clause; read_optional: every "
         "mesh of the families x every optional-construct variant of the reference writer x edge completion on/off, and "
         "every positional construct (12 over the 7 formats) x every position (first / middle / last record, end of file or "
-        "every record) x every mesh of the families x edge completion on/off")
+        "every record) x every mesh of the families x edge completion on/off; carried clause: 7 host meshes (cloud, polyline, "
+        "triangles with a vertex in no face, tri+quad+pentagon, triangles with declared edges, two tets, a hexahedron) x 7 formats x "
+        "every set of well-known attributes the host's containers own (3 or 6) x {sparse full, dense full, sparse with unset odd "
+        "elements} under the defaults and x {C=0, obj: X=0, ignore faces, ignore edges} for the first storage, each preceded by "
+        "the same mesh without attribute, plus the second generation of every clean case of a carrying format, plus the "
+        "independent writer's files (xyz 1, obj 3, ASCII stl 1 attribute sets per host); defaults clause: the same 7 hosts x 7 "
+        "formats x every call form of the table (save: 4 forms + 2 per owned element kind; load: 7 forms for the defaults + "
+        "5 (dim, raw) values x 4-6 forms) and x 3 switches left untouched / set to the documented value / flipped")
 ASSUMPTIONS = [
     "the reference codecs in mc/c04_codecs.py (token-stream parsers and writers written from the public format "
     "descriptions, self-tested against each other and against the repository's tests/data files) are the trusted base",
@@ -107,6 +128,18 @@ ASSUMPTIONS = [
     "of the generation-1 file must reappear in the generation-2 file with the same type, arity and values (the file may "
     "hold more); the attributes of load(file2, raw=True) must include those of load(file1, raw=True) unchanged; STL: "
     "the whole load/save/load runs in a sacrificial child and the float32 triangle soup of m1 must be reproduced exactly",
+    "carried clause: the attribute values are distinct exact doubles per element and component (not unit vectors: nothing may "
+    "normalise them); values are compared element by element through the attribute's own read access (an unset element reads as "
+    "the default 0.0), not by storage; OBJ ties normals / texture coordinates to vertices only through the corners of 'f' records: "
+    "they are demanded for the vertices that belong to a face, per-vertex uv_coords may come back per corner or per vertex, a mesh "
+    "that carries uv_coords on vertices AND on face corners is only judged on its corner attribute, nothing is demanded of a file "
+    "without faces; attributes on faces / face corners are not demanded when the faces are ignored; formats that do not carry an "
+    "attribute (mesh, off, tet, stl; xyz for uv_coords) only have to write the same geometry; the presence of the attribute after "
+    "load is demanded because the readers of the unchanged tree create it from exactly these records",
+    "defaults clause: the documented defaults are the table DOCUMENTED / DOCUMENTED_CONFIG copied from the unchanged signatures, "
+    "docstrings and mouette/config.py; two calls mean the same when both raise or both give the same class, coordinates (bit "
+    "exact) and element lists, resp. the same file bytes (a fresh mesh is built for every call); the switches are read as the "
+    "library left them at import in the worker process (every task of this driver restores them)",
     "when the independent reader finds mouette's file unsound the round trip of that same file is not reported a "
     "second time, and when mouette's reader already failed on the reference writer's file of a mesh its round trip "
     "is not reported either (same defect); the other clauses and the other meshes of the format are still checked",
@@ -122,7 +155,10 @@ BOUNDS = {
              "formats x 2 (obj: 3) switch vectors + every attribute case; reference-writer variants per format: obj 7, "
              "mesh 4, off 5 (+2-gons), tet 2, xyz 4, geogram_ascii 4, stl 4; positional constructs x positions: obj 2 x 4, "
              "mesh 4 + 3 + 1, off 4 + 1, tet 4, xyz 4, geogram_ascii 4 + 4, ASCII stl 4; + 3 polyline specimens (stars with 4 / 6 "
-             "leaves, three disjoint paths) so that every position of an OBJ polyline record exists",
+             "leaves, three disjoint paths) so that every position of an OBJ polyline record exists; carried clause: 7 hosts x "
+             "7 formats x (3|6 attribute sets x (3 storages + 3 (obj: 4) switch deviations) + base lines) = 2073 saves + second "
+             "generations + 11 x 7 reference files; defaults clause: 7 hosts x 7 formats x (4..10 save forms + 33 load forms + "
+             "3 switches x 3 settings)",
     "thorough": "quick + graphs n=5 (1023); tri+quad complexes n=5 with <=5 faces (2612) x 2 listings x <=3 hard-edge "
                 "variants; every single face rotation / adjacent swap of the n=4 complexes; the 16 tet classes on 6 "
                 "vertices x 2 orientations; holey 3x3 grids; ignore + dim clauses on quick's sub-family + graphs n=4, both "
